@@ -1,1 +1,95 @@
-import Simfile.Spec.Notes
+/-
+C08 — the note-data encoder. Property theorems only; lemmas live in Simfile/Lemmas/.
+-/
+import Simfile.Lemmas.NotesEncode
+import Simfile.Lemmas.NotesRoundTrip
+namespace Simfile.C08
+open Simfile
+
+/-- a stream without notes is written as one blank measure of four rows … -/
+theorem empty_encode (cols : Nat) :
+    encode [] cols = .ok (List.replicate 4 (List.replicate cols '0' ++ ['\n'])).flatten := by
+  simp [encode, pushMeasure, groupRuns, blankRows, bind, Except.bind, pure, Except.pure]
+
+/-- … which reads back as no notes in `cols` columns -/
+theorem empty (cols : Nat) (h : 0 < cols) :
+    encode [] cols = .ok (List.replicate 4 (List.replicate cols '0' ++ ['\n'])).flatten ∧
+    decode (List.replicate 4 (List.replicate cols '0' ++ ['\n'])).flatten = .ok (cols, []) :=
+  ⟨empty_encode cols, decode_blank cols h⟩
+
+example : encode [] 4 = .ok "0000\n0000\n0000\n0000\n".toList := by
+  rw [empty_encode]; decide
+
+/-- `push_measure` on notes of one measure, in beat order, writes exactly `4 * lcm(denominators)`
+rows, each `cols` cells followed by a line feed -/
+theorem rows_of_measure (cols : Nat) (measure : List Note)
+    (hcol : ∀ n ∈ measure, n.column < cols)
+    (hsorted : measure.Pairwise (fun a b => a.beat ≤ b.beat))
+    (hone : ∀ a ∈ measure, ∀ b ∈ measure, measureIndex a = measureIndex b) :
+    ∃ rows : List Spec.DRow, pushMeasure cols measure = .ok (rows.map Spec.renderRow).flatten ∧
+      rows.length = 4 * measure.foldl (fun a n => Nat.lcm a n.beat.den) 1 ∧
+      ∀ r ∈ rows, r.cells.length = cols ∧ r.lead = [] ∧ r.trail = [] ∧ r.eol = ['\n'] := by
+  obtain ⟨rows, h1, h2, h3, _⟩ := Spec.pushMeasure_rows cols measure hcol hsorted hone
+  exact ⟨rows, h1, h2, h3⟩
+
+/-- … so for known note characters the text has exactly that many lines -/
+theorem lines_of_measure (cols : Nat) (measure : List Note)
+    (hcol : ∀ n ∈ measure, n.column < cols)
+    (hsorted : measure.Pairwise (fun a b => a.beat ≤ b.beat))
+    (hone : ∀ a ∈ measure, ∀ b ∈ measure, measureIndex a = measureIndex b)
+    (hch : ∀ n ∈ measure, isNoteChar n.ntype = true) :
+    ∃ out, pushMeasure cols measure = .ok out ∧
+      (splitLines out).length = 4 * measure.foldl (fun a n => Nat.lcm a n.beat.den) 1 := by
+  obtain ⟨rows, h1, h2, h3, h4⟩ := Spec.pushMeasure_rows cols measure hcol hsorted hone
+  refine ⟨_, h1, ?_⟩
+  have := Spec.splitLines_rowsText cols rows (fun r hr => ⟨h3 r hr, h4 hch r hr⟩)
+  rw [Spec.rowsText] at this
+  rw [this, List.length_map, h2]
+  rfl
+
+/-- a measure with a quarter note and a triplet position: lcm(1, 3) = 3, twelve rows -/
+example : ∃ out, pushMeasure 2 [⟨4, 0, '1', 0, none⟩, ⟨13/3, 1, '2', 0, some 5⟩] = .ok out ∧
+    (splitLines out).length = 4 * 3 := by
+  have hq : List.foldl (fun a (n : Note) => Nat.lcm a n.beat.den) 1
+      [⟨4, 0, '1', 0, none⟩, ⟨13/3, 1, '2', 0, some 5⟩] = 3 := by decide +kernel
+  have := lines_of_measure 2 [⟨4, 0, '1', 0, none⟩, ⟨13/3, 1, '2', 0, some 5⟩]
+    (by decide +kernel) (by decide +kernel) (by decide +kernel) (by decide +kernel)
+  rw [hq] at this
+  exact this
+
+/-! ### decode ∘ encode -/
+
+/-- streams that `from_notes` writes faithfully: sorted by (player, beat, column) with pairwise distinct
+positions, non-negative beats, columns below `cols`, known note characters; any denominators, any
+number of players, gaps between measures and players allowed -/
+structure Stream (ns : List Note) (cols : Nat) : Prop where
+  cols_pos : 1 ≤ cols
+  sorted : ns.Pairwise (fun a b => keyLe a.key b.key = true)
+  distinct : (ns.map Note.key).Nodup
+  nonneg : ∀ n ∈ ns, 0 ≤ n.beat
+  column : ∀ n ∈ ns, n.column < cols
+  known : ∀ n ∈ ns, isNoteChar n.ntype = true
+
+theorem Stream.ok {ns : List Note} {cols : Nat} (h : Stream ns cols) : Spec.StreamOK cols ns :=
+  ⟨Spec.strict_of_sorted_nodup h.sorted h.distinct, h.nonneg, h.column, h.known⟩
+
+/-- the text written for a stream is the rendering of a well-formed chart that denotes the stream -/
+theorem encode_well_formed (ns : List Note) (cols : Nat) (h : Stream ns cols) :
+    ∃ c : Spec.DChart, encode ns cols = .ok (Spec.render c) ∧ Spec.WF c = true ∧ Spec.cols c = cols ∧
+      Spec.notesOf c = ns := Spec.encode_is_render h.cols_pos h.ok
+
+/-- reading back what was written gives the stream -/
+theorem decode_encode (ns : List Note) (cols : Nat) (h : Stream ns cols) :
+    (encode ns cols).bind (fun t => decodeWith cols t) = .ok ns := Spec.decode_encode h.cols_pos h.ok
+
+/-- … also when the column count is recomputed from the text, as the constructor does -/
+theorem decode_encode_columns (ns : List Note) (cols : Nat) (h : Stream ns cols) :
+    (encode ns cols).bind decode = .ok (cols, ns) := Spec.decode_encode_full h.cols_pos h.ok
+
+/-- a stream with two players (the first one absent: player 1 and 3), a skipped measure, a triplet
+position, a keysound and a mine -/
+example : Stream [⟨0, 1, '1', 1, none⟩, ⟨13/3, 0, '2', 1, some 5⟩, ⟨13/3, 2, 'M', 1, none⟩,
+    ⟨17, 0, '4', 3, none⟩] 3 :=
+  ⟨by decide, by decide +kernel, by decide +kernel, by decide +kernel, by decide +kernel, by decide +kernel⟩
+
+end Simfile.C08
